@@ -50,6 +50,24 @@ def run(ctx):
            "RESTORE operand's way from the parser to push_restore")
     rule_d(ctx, cr)
     rule_e(ctx, cr)
+    ctx.rule("C09.g", "the data segment belongs to the stored program: a direct-mode line cannot add "
+             "constants to it (Link::append refuses a fragment carrying DATA once the direct part "
+             "has begun, before it appends anything - see C04.e)")
+    from rules import c04
+
+    class _P4:
+        def __init__(self, c):
+            self.c = c
+
+        def __getattr__(self, n):
+            return getattr(self.c, n)
+
+        def check(self, cond, rule, key, *a, **k):
+            return self.c.check(cond, "C09.g", key, *a, **k)
+
+        def floor(self, rule, *a, **k):
+            return self.c.floor("C09.g", *a, **k)
+    c04.rule_e(_P4(ctx), cr)
     codegen.check_all_statements_compiled(ctx, "C09.f", cr)
     n = codegen.check_linear(ctx, "C09.f", cr)
     ctx.floor("C09.f", "fragment pops in generators", n, 27)
@@ -79,6 +97,7 @@ def rule_a(ctx, cr):
               "a literal (or negated literal) becomes one data item (%d push sites)" % len(pushes))
     ctx.check(bool(t.calls_to("mach::operation::Operation::negate")), "C09.a",
               "transform_to_data/negative-literal", t.span, "-literal is negated at compile time")
+    rule_transform_consumes(ctx, cr, "C09.a")
     codes = {c for _b, c, _s in t.error_codes()}
     ctx.check("SyntaxError" in codes, "C09.a", "transform_to_data/non-literal", t.span,
               "anything else is a SYNTAX ERROR")
@@ -188,3 +207,26 @@ def rule_e(ctx, cr):
     okr = len(pushes) == 1 and len(pap) == 1 and rd.dominates(pushes[0].bb, pap[0].bb)
     ctx.check(okr, "C09.e", "Generator::read/Read-then-store", rd.span,
               "each variable gets Read followed by its store")
+
+
+def rule_transform_consumes(ctx, cr, rid):
+    """a DATA constant moves from the fragment's code to its data: nothing stays in the code"""
+    t = cr.need_fn("mach::link::Link::transform_to_data")
+    ctx.touch(t)
+    pushes = [c for c in t.calls_to("mach::stack::Stack<T>::push")
+              if t.describe(c.args[0]).endswith(".data")]
+    empt = [c for c in t.calls() if re.search(r"Stack<T>::(drain|clear)$", c.name)
+            and t.describe(c.args[0]).endswith(".ops")]
+    peeks = [c for c in t.calls() if re.search(r"Stack<T>::(last|get|get_mut)$", c.name)
+             and t.describe(c.args[0]).endswith(".ops")]
+    ok = bool(pushes) and all(any(t.dominates(e.bb, p_.bb) for e in empt) for p_ in pushes) \
+        and not peeks
+    ctx.check(ok, rid, "transform_to_data/consumes-code", t.span,
+              "every constant pushed to the data segment comes from a drained (emptied) code "
+              "fragment",
+              "transform_to_data reads an opcode of the fragment without removing it (%s): the "
+              "Literal stays in the DATA line's code, and every pass over that line pushes a "
+              "value on the runtime stack that nothing pops"
+              % [c.name.rsplit("::", 1)[1] for c in peeks] if peeks else
+              "transform_to_data no longer empties the fragment's code before it pushes the "
+              "constant to the data segment")
